@@ -9,7 +9,22 @@ from .terms import STD_DISCR
 
 MAX_ROUNDS = 80
 MAX_CHAIN = 6
-FOLD_EQ = [True]      # thread_jumps(.., fold_eq=False): do not decide `a == b` of two known scalars (rules that look for that very guard)
+import threading as _threading
+
+
+class _FoldEq(_threading.local):
+    """per-thread switch (the positive controls run the same rules in worker threads of the same process: a module-wide
+    flag toggled by one thread changed what another thread's `thread_jumps` folded)"""
+    v = True
+
+    def __getitem__(self, i):
+        return self.v
+
+    def __setitem__(self, i, x):
+        self.v = x
+
+
+FOLD_EQ = _FoldEq()      # thread_jumps(.., fold_eq=False): do not decide `a == b` of two known scalars (rules that look for that very guard)
 MAX_CHAIN_DECISION = 14     # switches on a private fieldless "decision" enum returned by an inlined helper
 
 
